@@ -1,7 +1,8 @@
 (* C10 — Throttling flow rules pace admitted requests and bound queueing.
    Property theorems only; proofs are instantiations of lemmas in Proofs/. *)
 From Coq Require Import Floats.
-From SG Require Import Base.Prelude Base.GoInt Base.GoFloat Model.Throttle Proofs.ThrottleProofs.
+From SG Require Import Base.Prelude Base.GoInt Base.GoFloat Model.Throttle Model.ThrottleConc
+  Proofs.ThrottleProofs Proofs.ThrottleConcProofs.
 #[local] Open Scope Z_scope.
 
 (* ---- sequential callers: all thresholds (any float64, fractional, 0, +Inf, NaN), all batch
@@ -65,6 +66,107 @@ Example C10_seq_nonvacuous :
   snd (run_c c last0 ops) = [OPass 0; OPass 500000000; OBlock; OZero; OPass 600000000; OBlock; OPass 0; OPass 500000000].
 Proof. vm_compute. repeat split; congruence. Qed.
 
+(* ---- concurrent callers: the pc-machine of Model/ThrottleConc.v (one step = one atomic
+   access of DoCheck), ANY number of callers, ANY schedule of single steps and clock moves ---- *)
+
+(* no admitted caller is asked to wait longer than the limit *)
+Theorem C10_conc_wait_bound : forall c bs sched, 0 <= maxq_ns c ->
+  Forall (fun o => match o with Some (OPass w) => 0 <= w <= maxq_ns c | _ => True end)
+         (outcomes (cexec_c c sched (cinit bs))).
+Proof. intros c bs sched. exact (conc_wait_bound (early_block c) (interval c) (maxq_ns c) bs sched). Qed.
+
+(* every pass time is >= the caller's arrival (its own clock reading): nothing is granted in
+   the past, whatever the interleaving *)
+Theorem C10_conc_no_banking : forall c bs sched,
+  Forall (fun g => g_now g <= g_pass g) (grants_of (c_log (cexec_c c sched (cinit bs)))).
+Proof. intros c bs sched. exact (conc_pass_ge_arrival (early_block c) (interval c) (maxq_ns c) bs sched). Qed.
+
+(* a caller rejected at the queueing test saw a stored time that justified it *)
+Theorem C10_conc_reject_seen : forall c bs sched,
+  Forall (fun e => match e with EBlock _ now b seen => seen + interval c b - now > maxq_ns c | _ => True end)
+         (c_log (cexec_c c sched (cinit bs))).
+Proof. intros c bs sched. exact (conc_block_seen (early_block c) (interval c) (maxq_ns c) bs sched). Qed.
+
+(* FULL STATEMENT (false on the code, see the two _refuted theorems):
+     forall c bs sched, spaced (interval c) last0 (grants_of (c_log (cexec_c c sched (cinit bs)))).
+   PROVED PART: spacing (in the order of the callers' CAS/Add, which is then also the order of
+   the pass times) holds on every schedule in which (a) no caller's Add overshoots the limit
+   and is rolled back, and (b) no caller is admitted by an Add whose result lies before its own
+   clock reading.  Missing: schedules with a rollback that does NOT overlap another caller's
+   access are also fine (the add/rollback pair is then a no-op) but are excluded here. *)
+Theorem C10_conc_spacing_partial : forall c bs sched,
+  let s := cexec_c c sched (cinit bs) in
+  rollback_free (c_log s) -> stale_free (c_log s) ->
+  spaced (interval c) last0 (grants_of (c_log s)) /\
+  c_last s = last_pass last0 (grants_of (c_log s)).
+Proof. intros c bs sched. exact (conc_spacing_partial (early_block c) (interval c) (maxq_ns c) bs sched). Qed.
+
+(* D8: threshold 1/s, max queueing 0.5 s.  A's Add overshoots and is parked before its rollback
+   while the clock moves on; B is admitted on the inflated value (pass +3.0 s); A rolls back; C
+   obtains +3.0 s as well.  No stale add is involved. Callers 0=R0 1=A 2=D 3=B 4=C. *)
+Definition d8_t0 : Z := 1700000000000000000.
+Definition d8_sched : list ev :=
+  [SetClock d8_t0; Run 0; Run 0; Run 0;
+   SetClock (d8_t0 + 500000000); Run 1; Run 1; Run 1;
+   Run 2; Run 2; Run 2; Run 2;
+   Run 1;
+   SetClock (d8_t0 + 2500000000); Run 3; Run 3; Run 3; Run 3;
+   Run 1;
+   Run 4; Run 4; Run 4; Run 4]%nat.
+
+Theorem C10_conc_spacing_refuted : exists c bs sched,
+  let s := cexec_c c sched (cinit bs) in
+  0 <= maxq_ns c /\ interval c 1 = 1000000000 /\ stale_free (c_log s) /\
+  map g_pass (grants_of (c_log s)) = [d8_t0; d8_t0 + 1000000000; d8_t0 + 3000000000; d8_t0 + 3000000000] /\
+  ~ spaced (interval c) last0 (grants_of (c_log s)).
+Proof.
+  exists (mk_cfg 1%float 500 0), [1; 1; 1; 1; 1], d8_sched. cbv zeta.
+  split; [vm_compute; congruence|]. split; [vm_compute; reflexivity|].
+  split; [apply (proj1 (stale_freeb_spec (fun _ => true) (fun x => x) _)); vm_compute; reflexivity|].
+  split; [vm_compute; reflexivity|].
+  intro H. apply (proj2 (spacedb_spec (fun _ => true) _ 0 _ _)) in H. vm_compute in H. discriminate H.
+Qed.
+
+(* second race, found while proving the partial theorem: B reads the clock (+0.0) and stalls;
+   A (+3.0) loads the same stored value; B wins the CAS (stored +0.0); A loses it, its estimated
+   wait is +1.0 - +3.0 < 0, so it Adds (stored +1.0) and passes at +3.0 with wait 0; C (+3.0)
+   finds stored + 1 s <= now, CASes and passes at +3.0 too.  No rollback is involved.
+   Callers 0=B 1=A 2=C. *)
+Definition stale_sched : list ev :=
+  [SetClock d8_t0; Run 0;
+   SetClock (d8_t0 + 3000000000); Run 1; Run 1;
+   Run 0; Run 0;
+   Run 1; Run 1; Run 1;
+   Run 2; Run 2; Run 2]%nat.
+
+Theorem C10_conc_spacing_refuted_stale : exists c bs sched,
+  let s := cexec_c c sched (cinit bs) in
+  0 <= maxq_ns c /\ interval c 1 = 1000000000 /\ rollback_free (c_log s) /\
+  map g_pass (grants_of (c_log s)) = [d8_t0; d8_t0 + 3000000000; d8_t0 + 3000000000] /\
+  ~ spaced (interval c) last0 (grants_of (c_log s)).
+Proof.
+  exists (mk_cfg 1%float 500 0), [1; 1; 1], stale_sched. cbv zeta.
+  split; [vm_compute; congruence|]. split; [vm_compute; reflexivity|].
+  split; [apply (proj1 (rollback_freeb_spec _)); vm_compute; reflexivity|].
+  split; [vm_compute; reflexivity|].
+  intro H. apply (proj2 (spacedb_spec (fun _ => true) _ 0 _ _)) in H. vm_compute in H. discriminate H.
+Qed.
+
+(* non-vacuity of the partial theorem: three callers really interleaved (A and B both inside
+   DoCheck, both past their queueing test before either adds), no rollback, no stale add, three
+   grants 1 s apart *)
+Example C10_conc_nonvacuous :
+  let c := mk_cfg 1%float 2000 0 in
+  let sched := [SetClock d8_t0; Run 0; Run 0; Run 0; Run 1; Run 2; Run 1; Run 2; Run 1; Run 2; Run 2; Run 1]%nat in
+  let s := cexec_c c sched (cinit [1; 1; 1]) in
+  rollback_free (c_log s) /\ stale_free (c_log s) /\
+  map g_pass (grants_of (c_log s)) = [d8_t0; d8_t0 + 1000000000; d8_t0 + 2000000000] /\
+  outcomes s = [Some (OPass 0); Some (OPass 2000000000); Some (OPass 1000000000)].
+Proof.
+  cbv zeta. split; [apply (proj1 (rollback_freeb_spec _)); vm_compute; reflexivity|].
+  split; [apply (proj1 (stale_freeb_spec (fun _ => true) (fun x => x) _)); vm_compute; reflexivity|]. vm_compute. split; reflexivity.
+Qed.
+
 Print Assumptions C10_spacing.
 Print Assumptions C10_wait_bound.
 Print Assumptions C10_reject_only_if_needed.
@@ -72,3 +174,9 @@ Print Assumptions C10_no_banking.
 Print Assumptions C10_idle_immediate.
 Print Assumptions C10_total_time.
 Print Assumptions C10_zero_batch_inert.
+Print Assumptions C10_conc_wait_bound.
+Print Assumptions C10_conc_no_banking.
+Print Assumptions C10_conc_reject_seen.
+Print Assumptions C10_conc_spacing_partial.
+Print Assumptions C10_conc_spacing_refuted.
+Print Assumptions C10_conc_spacing_refuted_stale.
